@@ -416,9 +416,8 @@ def sample_case(ctx, rng, idx):
     if given is not None:
         model.set_population_parameters([list(g) for g in given])
     leaf = GP.make_leaf(kind, n_dim, centered, n_cov, sel, 1)
-    top = GP.leaf_top(rng, leaf, 1)
+    top = GP.leaf_top(rng, leaf, 1, strong_cov=True)
     nb = leaf.n_base(1)
-    top[nb:] *= 2.5         # visible covariate effects, scales stay > 0
     one_row = bool(rng.integers(2))
     cov = rng.uniform(-1, 1, size=(1 if one_row else n, n_cov))
     feats = {'class': GP.leaf_code(leaf), 'kind': kind, 'n_dim': n_dim,
